@@ -100,6 +100,15 @@ def analyse(ctx, case, run, S):
                                       cfg=cfg, key='C10:wrong-seed-recovers', pred='wrong_seed_recovers')
             elif honest:
                 ctx.expect(False, 'C10:wrong-seed-none', '%s: no value returned for another seed' % case['name'], cfg, None)
+    # every seed-derived nonce is keyed by the WHOLE seed element (00 | seed | indexes): two different seeds never share a key
+    if honest:
+        lv = LogView(run.core)
+        seeds = {v['name'] for v in run.core['vars'] if v['kind'] == 'seed'}
+        okk = len(run.core['blake']) > 0
+        for rec in run.core['blake']:
+            d = [lv.piece_desc(p) for p in rec['key']]
+            okk = okk and len(d) == 3 and d[0] == ('lit', '00') and d[1][0] == 'scalar' and d[2][0] == 'lit' and rec['key_len'] == 33 + len(d[2][1]) // 2
+        ctx.expect(okk, 'C10:nonce-not-keyed-by-whole-seed', '%s: a recovery nonce is not keyed by 00 | <whole seed element> | indexes' % case['name'], cfg, 'wrong_seed_topbyte')
     # RecoverOnly returns the same masks as RecoverAndVerify for every accepted proof
     if honest:
         for mi in range(3):
